@@ -364,7 +364,7 @@ def check_C05(tier, seed):
             plan += shards(Q[k], "clang-asan", ["--mode", "fault", "--level", 1] + mon, 4)
     run_hist_plan(rp, "C05", plan)
     if tier != "quick":
-        fuzz_stage(rp, "C05", {k: Q[k] for k in ("tnx-l000", "tthrow-l000", "tco-l010", "tmo-l111", "tmot-l001", "tthrow-std", "tthrow-l011", "tnx-l000c")}, 25000, seed, fault=1, fmask="c05")
+        fuzz_stage(rp, "C05", {k: Q[k] for k in ("tnx-l000", "tthrow-l000", "tco-l010", "tmo-l111", "tmot-l001", "tthrow-std", "tthrow-l011", "tnx-l000c")}, 120000, seed, fault=1, fmask="c05")
     floor(rp, "faults-fired", 500, "injected faults that reached the caller")
     floor(rp, "c05.strong-cases", 300, "strong-guarantee snapshots compared")
     rp.exhaustive = True
@@ -392,7 +392,7 @@ def check_C06(tier, seed):
             plan.append(hist_run(Q[k], "asan-dbg-o1", ["--mode", "rfault", "--cases", 3000, "--len", 12, "--seed", seed, "--pairs", 1] + mon))
     run_hist_plan(rp, "C06", plan)
     if tier != "quick":
-        fuzz_stage(rp, "C06", {k: Q[k] for k in ("tnx-l000", "tthrow-l000", "tco-l010", "tmo-l111", "tmot-l001", "tsw-l110", "tthrow-l011", "tas-l000")}, 20000, seed, fault=1)
+        fuzz_stage(rp, "C06", {k: Q[k] for k in ("tnx-l000", "tthrow-l000", "tco-l010", "tmo-l111", "tmot-l001", "tsw-l110", "tthrow-l011", "tas-l000")}, 100000, seed, fault=1)
     floor(rp, "faults-fired", 1000, "injected faults")
     floor(rp, "c06.followups", 500, "reuse scripts after a throw")
     rp.exhaustive = True
@@ -600,6 +600,8 @@ def check_C14(tier, seed):
             plan.append(hist_run(Q[k], "asan-dbg-o1", ["--mode", "random", "--focus", "grow", "--cases", 8000, "--len", 60, "--seed", seed] + mon))
             plan += shards(Q[k], "asan-dbg-o1", ["--mode", "sweep", "--level", 1] + mon, 2)
     run_hist_plan(rp, "C14", plan)
+    if tier != "quick":
+        fuzz_stage(rp, "C14", {k: Q[k] for k in ("int-std", "tnx-l000", "tthrow-l000", "tmo-l111", "tco-l010", "tnx-l101", "int-l111", "tthrow-std")}, 100000, seed, focus="grow")
     jobs = []
     for part in ("int", "cnt", "mixed"):
         jobs.append({"src": "growth.cpp", "cc": "g++", "flags": ["-std=c++17", "-O2", "-DNDEBUG"], "args": ["--n", n if part != "mixed" else n // 5, "--seed", seed, "--part", part],
@@ -685,6 +687,8 @@ def check_C18(tier, seed):
         plan += shards(QTD[k], fl, ["--mode", "fault", "--level", lvl] + mon, 3 if tier == "quick" else 6)
         plan.append(hist_run(QTD[k], fl, ["--mode", "random", "--cases", 300 if tier == "quick" else 3000, "--len", 40, "--seed", seed] + mon))
     run_hist_plan(rp, "C18", plan)
+    if tier != "quick":
+        fuzz_stage(rp, "C18", dict({k: Q[k] for k in ("tnx-l000", "tthrow-l000", "tmo-l111", "tmot-l001", "tsw-l110", "tas-l000")}, **QTD), 60000, seed, fault=2, focus="alloc")
     floor(rp, "c18.noexcept-ops-observed", 1000, "noexcept operations observed at run time")
     floor(rp, "faults-fired", 1000, "injected faults")
     return rp.finish()
